@@ -297,3 +297,15 @@ def fired(C, sc, case, cfg_text, subject):
         return C.match_after(list(subject), cfg, cwd) == "fb"
     m = C._match_words(list(subject), cfg, cwd)
     return m is not None and m.decision == case["dec"]
+
+
+def identity_tokens():
+    """Word shapes for which no respelling is claimed but identity is: a rule written with exactly the command's own
+    words fires on it.  Every string of <= 4 characters over . / ~ a * : (the characters token classification looks at, a
+    neutral letter, a glob character) plus URL-, variable-, ~user-, option- and assignment-shaped words with path parts."""
+    import itertools
+
+    toks = ["".join(t) for n in range(1, 5) for t in itertools.product([".", "/", "~", "a", "*", ":"], repeat=n)]
+    toks += ["~/a://b", "~/://", "~://a", "a://b/..", "http://h/p/../q", "/a://b", "./a://b", "../a://..", "$HOME/x", "$X/..", "${X}/../y", "~bob/x", "~bob/..", "~bob",
+             "-f", "--opt=../x", "-I../inc", "a=b/../c", "a=~/x", "?", "a?/..", "é/../x", "a:b", "::", "@/..", "%/./x", "a\\b/..", "...", "..../x", ".../..", "~~", "~/~", "~/.."]
+    return toks
